@@ -90,7 +90,10 @@ def parse_pls(data):
         except (configparser.Error, ValueError):
             continue
         for i in range(count):
-            yield cp.get(section, f"file{i + 1}").strip("\"'")
+            try:
+                yield cp.get(section, f"file{i + 1}").strip("\"'")
+            except configparser.Error:
+                break
 
 
 def parse_xspf(data):
